@@ -35,6 +35,7 @@ Section Func.
   Theorem compile_correct_partial f args :
     check_func f = true -> locals_ok f = true ->
     Forall2 (vok fo) (f_params f) args ->
+    loop_free_block (f_body f) = true ->
     static_flags f = [] -> dyn_flags fo f args = [] ->
     exists w, compile f = Some w /\
       match spec_run fo f args with
@@ -43,10 +44,10 @@ Section Func.
       | Unspec => True
       end.
   Proof.
-    intros Hc Hl Ha Hs Hd. unfold check_func in Hc. apply andb_true_iff in Hc. destruct Hc as [Hc _].
+    intros Hc Hl Ha Hlf Hs Hd. unfold check_func in Hc. apply andb_true_iff in Hc. destruct Hc as [Hc _].
     destruct (stmts_ok fo (f_tys f) (length (f_params f)) (f_ret f)) as (_ & HB & _).
-    destruct (HB (f_body f) _ Hc Hs) as (code & d & Ec & S).
-    unfold compile. rewrite Ec. eexists. split; [reflexivity|].
+    destruct (HB (f_body f) _ Hc Hs Hlf) as (code & d & Ec & S).
+    unfold compile. rewrite (Ec 0%nat None). eexists. split; [reflexivity|].
     set (ls0 := wvs fo (f_params f) args ++
                 map (zero_w fo) (map vt_of (map snd (decls_block (f_body f))))).
     destruct (args_sim _ _ Ha) as [La Na].
@@ -61,11 +62,10 @@ Section Func.
         unfold ls0. rewrite nth_error_app1 by (rewrite La; lia). assumption. }
     destruct (S (env_of fo args) ls0 Hsim Hd) as [O _].
     unfold spec_run, wasm_run. simpl w_body. simpl w_locals. fold ls0.
-    destruct (exec_block fo (f_tys f) (env_of fo args) (f_body f)) as [[r'|v]| |]; simpl in *.
-    - exact I.
+    destruct (exec_block fo (f_tys f) (env_of fo args) (f_body f)) as [[r'|v|r'|r']| |]; simpl in *;
+      try exact I.
     - destruct O as [_ X]. rewrite X. reflexivity.
     - rewrite O. reflexivity.
-    - exact I.
   Qed.
 End Func.
 
